@@ -220,14 +220,13 @@ def r3_channels(ctx, rep, R='C02.R3'):
               key='import:startup-failure', func=fs.qualname, where=ctx.where(fs, fs.node))
     tf = m.func('find.tests_from_suite')
     ok_none = False
-    for n in ast.walk(tf.node):
-        if isinstance(n, ast.If) and 'StartUpFailure' in norm(n.test) and 'isinstance' in norm(n.test):
-            for x in n.body:
-                for y in ast.walk(x):
-                    if isinstance(y, ast.Yield) and isinstance(y.value, ast.Tuple) and \
-                            len(y.value.elts) == 2 and isinstance(y.value.elts[1], ast.Constant) \
-                            and y.value.elts[1].value is None:
-                        ok_none = True
+    from .common import guard_literals
+    for y in ast.walk(tf.node):
+        if isinstance(y, ast.Yield) and isinstance(y.value, ast.Tuple) and len(y.value.elts) == 2 and \
+                isinstance(y.value.elts[1], ast.Constant) and y.value.elts[1].value is None:
+            if any(pos and 'StartUpFailure' in norm(e) and 'isinstance' in norm(e)
+                   for e, pos in guard_literals(ctx, tf, y)):
+                ok_none = True
     rep.check(ok_none, R, 'tests_from_suite: StartUpFailure is yielded under layer None',
               'StartUpFailure entries are not routed to the None layer', key='import:layer-none',
               func=tf.qualname, where=ctx.where(tf, tf.node))
